@@ -130,13 +130,14 @@ def judge(case, raw, cmpr, model):
             continue
         if d.get('T1') != '=':
             bad.append(('text-differs-after-read', '%s: MIR_output differs after the binary round trip' % tag))
-        if d.get('LI1', 'ok') != 'ok' or d.get('LIM', 'ok') != 'ok':
+        li0 = d.get('LI0', 'ok') == 'ok'     # the context under test is sound itself (a description may use a label it never places)
+        if li0 and (d.get('LI1', 'ok') != 'ok' or d.get('LIM', 'ok') != 'ok'):
             # the labels a branch / switch / laddr operand or an lref item refers to are the label insns of the function:
             # text and bytes name labels by number, load / link / interpreter / generator use the object
             bad.append(('label-identity-lost-after-read', '%s: a label reference of the module read back is not attached to a label '
                         'insn of its function: %s' % (tag, d.get('LI1') if d.get('LI1', 'ok') != 'ok' else
                                                       'modules written one by one: ' + d.get('LIM'))))
-        if d.get('LI0', 'ok') != 'ok' and 'newctx' in case:
+        if not li0 and 'newctx' in case and 'LIS' not in d:
             bad.append(('label-identity-lost-after-read', '%s: reading the separately written modules into one context detaches a '
                         'label reference from its label insn: %s' % (tag, d.get('LI0'))))
         if d.get('S1', '=') != '=':
